@@ -43,6 +43,11 @@ def default_db():
             (8, 0x43, [Ch(9, 0x25, "bool", 0x10 | 0x20 | 0x80, False), Ch(10, 0x08, "int", 0x10 | 0x20 | 0x80, 50), Ch(12, 0x2F, "int", 0x20, 0)], [1]),
             (20, 0x55, [Ch(24, 0x50, "data", 0x10 | 0x20, b"")], []),
         ]),
+        # a bridged second accessory: instance ids are unique across the whole database (the PDU carries no accessory id)
+        (2, [
+            (40, 0x3E, [Ch(41, 0x23, "string", 0x10, "Sub")], []),
+            (48, 0x43, [Ch(13, 0x25, "bool", 0x10 | 0x20 | 0x80, True), Ch(14, 0x2F, "int", 0x20, 0)], []),
+        ]),
     ]
 
 
